@@ -382,7 +382,7 @@ def every_line_converted(ctx: Ctx, rep: Report, rid: str = "R12.8") -> None:
                     names = [tg.id]
                 elif isinstance(tg, ast.Tuple):
                     names = [e.value.id for e in tg.elts if isinstance(e, ast.Starred) and isinstance(e.value, ast.Name)]
-                is_src = isinstance(v, ast.Call) and (src(v.func).endswith("lines_wo_spaces") or (isinstance(v.func, ast.Attribute) and v.func.attr in ("split", "splitlines")))
+                is_src = any(isinstance(c_, ast.Call) and (src(c_.func).endswith("lines_wo_spaces") or (isinstance(c_.func, ast.Attribute) and c_.func.attr in ("split", "splitlines") and mentions(c_.func.value, f.params[1]))) for c_ in ast.walk(v))
                 derived = any(isinstance(x, ast.Name) and x.id in lines_vars for x in ast.walk(v))
                 if (is_src or derived) and not (isinstance(v, ast.Call) and conv in src(v.func)) and not any(isinstance(x, ast.Call) and conv in src(x.func) for x in ast.walk(v)):
                     for nm in names:
